@@ -308,9 +308,9 @@ COMPONENTS = [
     "root1", "root2", "root1x", "z", "linkdir", "link_out.liquid", "link_out", "link_in", "link_r2", "up", "abs_out", "dangling", "loop", "templates", "more", "m", "private", "p",
     "vpkg22", "pkgs", "...", "~", "a.liquid.", "a.", ".liquid", "\x00", "a\x00", "a.liquid\x00.txt", "\n", "a\n", "\x7f", "<S>", "a<S>", "x" * 300, "nope", "*", "a.LIQUID",
 ]
-SEPS = ["/", "/", "/", "//", "\\", "/./"]
+SEPS = ["/", "/", "/", "//", "\\", "/./", "\uff0f", "\u2215", "\u2044"]  # the last three only look like a slash (NFKC folds U+FF0F into one)
 # "/<T>/..." expands to a name with two leading slashes, which POSIX pathlib keeps as the separate root "//"
-PREFIXES = ["", "", "", "", "/", "//", "<T>/outside/", "<T>/root1/", "<T>/", "<T>/pkgs/vpkg22/", "./", "../", "~/", "/<T>/outside/", "//<T>/outside/", "/<T>/root1/", "/<T>/pkgs/vpkg22/", "/<T>/"]
+PREFIXES = ["\u2025/", "\uff0e\uff0e/", "\uff0e\uff0e\uff0f", "\u2024\u2024/", "\uff0f<T>/outside/", "\u2025\uff0foutside\uff0f", ".\u2024/", "", "", "", "", "/", "//", "<T>/outside/", "<T>/root1/", "<T>/", "<T>/pkgs/vpkg22/", "./", "../", "~/", "/<T>/outside/", "//<T>/outside/", "/<T>/root1/", "/<T>/pkgs/vpkg22/", "/<T>/"]
 
 
 def gen_name(rng) -> str:
@@ -325,7 +325,8 @@ def gen_name(rng) -> str:
     return name
 
 
-BASIC = ["sub/../a.liquid", "nope/../a.liquid", "./a.liquid", "sub/./b.liquid", "sub//b.liquid", "a.liquid/", "sub/../sub/b.liquid", "nope/../sub/b", "./both", "sub/deep/../../a",
+BASIC = ["\u2025/outside/secret.liquid", "\uff0e\uff0e/outside/secret.liquid", "\uff0e\uff0e\uff0foutside\uff0fsecret.liquid", "\uff0f<T>/outside/secret.liquid", "sub/\u2025/\u2025/outside/secret.liquid",
+         "\uff41.liquid", "ａ", "sub\uff0fb.liquid", "sub/../a.liquid", "nope/../a.liquid", "./a.liquid", "sub/./b.liquid", "sub//b.liquid", "a.liquid/", "sub/../sub/b.liquid", "nope/../sub/b", "./both", "sub/deep/../../a",
          "a.liquid", "a", "sub/b.liquid", "sub/b", "sub/deep/c.txt", "noext", "both", "d", "d.liquid", "link_in.liquid", "link_out.liquid", "linkdir/secret.liquid", "link_r2.liquid",
          "sub/up/outside/secret.liquid", "abs_out.liquid", "../outside/secret.liquid", "<T>/outside/secret.liquid", "<T>/root1/a.liquid", "<T>/pkgs/vpkg22/secret.liquid",
          "/<T>/outside/secret.liquid", "//<T>/outside/secret.liquid", "/<T>/pkgs/vpkg22/secret.liquid", "/<T>/root1/a.liquid", "/<T>/outside/secret",
